@@ -20,8 +20,6 @@ import TfelVerif.C05.Lemmas
 import TfelVerif.C05.Props
 import TfelVerif.C05.GenDec12
 import TfelVerif.C05.GenDec3full
-import TfelVerif.C05.GenDec3p01
-import TfelVerif.C05.GenDec3dist
 
 namespace TfelVerif.C05.PropsDec
 open TfelVerif TfelVerif.Mandel TfelVerif.C05 TfelVerif.C05.Props
@@ -166,78 +164,6 @@ theorem N3_dec_full_p (hc : c * c = 2)
     ∧ Gen.N3_dec_full_p_n c c3 fn a00 a11 a22 (c * a01) (c * a02) (c * a12) eps h00 h11 h22 (c * h01) (c * h02) (c * h12) g00 g11 g22 (c * g01) (c * g02) (c * g12) = 0
     ∧ Gen.N3_dec_full_p_qa c c3 fn a00 a11 a22 (c * a01) (c * a02) (c * a12) eps h00 h11 h22 (c * h01) (c * h02) (c * h12) g00 g11 g22 (c * g01) (c * g02) (c * g12) = Gen.N3_dec_full_p_a c c3 fn a00 a11 a22 (c * a01) (c * a02) (c * a12) eps h00 h11 h22 (c * h01) (c * h02) (c * h12) g00 g11 g22 (c * g01) (c * g02) (c * g12)
     ∧ Gen.N3_dec_full_p_qp c c3 fn a00 a11 a22 (c * a01) (c * a02) (c * a12) eps h00 h11 h22 (c * h01) (c * h02) (c * h12) g00 g11 g22 (c * g01) (c * g02) (c * g12) = Gen.N3_dec_full_p_p c c3 fn a00 a11 a22 (c * a01) (c * a02) (c * a12) eps h00 h11 h22 (c * h01) (c * h02) (c * h12) g00 g11 g22 (c * g01) (c * g02) (c * g12) := by
-  refine ⟨?_, ?_, ?_, ?_, ?_, ?_⟩
-  · c05_dec hc
-  · c05_dec hc
-  · c05_dec hc
-  · c05_dec hc
-  · simp only [gen_simp]
-  · simp only [gen_simp]
-
-theorem N3_dec_p01_pp (hc : c * c = 2)
-    (s0 s1 s2 s3 s4 s5 eps h00 h11 h22 h01 h02 h12 g00 g11 g22 g01 g02 g12 l0 l1 l2 m00 m01 m02 m10 m11 m12 m20 m21 m22 : K)
-    (hl0 : solvp fn "vp0" [s0, s1, s2, s3, s4, s5] = l0) (hl1 : solvp fn "vp1" [s0, s1, s2, s3, s4, s5] = l1) (hl2 : solvp fn "vp2" [s0, s1, s2, s3, s4, s5] = l2)
-    (hM : solM3 fn [s0, s1, s2, s3, s4, s5] = ⟨m00, m01, m02, m10, m11, m12, m20, m21, m22⟩) :
-    Gen.N3_dec_p01_pp_a c c3 fn s0 s1 s2 s3 s4 s5 eps h00 h11 h22 (c * h01) (c * h02) (c * h12) g00 g11 g22 (c * g01) (c * g02) (c * g12)
-      = (M3.sym g00 g11 g22 g01 g02 g12).frob (dkAct ⟨m00, m01, m02, m10, m11, m12, m20, m21, m22⟩ (M3.sym 1 1 1 1 ((((l0 + l1) * (1 / 2)) - l2) / (((l0 + l1) * (1 / 2)) - l2)) ((((l0 + l1) * (1 / 2)) - l2) / (((l0 + l1) * (1 / 2)) - l2))) (M3.sym h00 h11 h22 h01 h02 h12))
-    ∧ Gen.N3_dec_p01_pp_b c c3 fn s0 s1 s2 s3 s4 s5 eps h00 h11 h22 (c * h01) (c * h02) (c * h12) g00 g11 g22 (c * g01) (c * g02) (c * g12)
-      = (M3.sym g00 g11 g22 g01 g02 g12).frob (dkAct ⟨m00, m01, m02, m10, m11, m12, m20, m21, m22⟩ (M3.sym 0 0 0 0 ((0 - 0) / (((l0 + l1) * (1 / 2)) - l2)) ((0 - 0) / (((l0 + l1) * (1 / 2)) - l2))) (M3.sym h00 h11 h22 h01 h02 h12))
-    ∧ Gen.N3_dec_p01_pp_p c c3 fn s0 s1 s2 s3 s4 s5 eps h00 h11 h22 (c * h01) (c * h02) (c * h12) g00 g11 g22 (c * g01) (c * g02) (c * g12) = (M3.sym g00 g11 g22 g01 g02 g12).frob (iso ⟨m00, m01, m02, m10, m11, m12, m20, m21, m22⟩ ((l0 + l1) * (1 / 2)) ((l0 + l1) * (1 / 2)) l2)
-    ∧ Gen.N3_dec_p01_pp_n c c3 fn s0 s1 s2 s3 s4 s5 eps h00 h11 h22 (c * h01) (c * h02) (c * h12) g00 g11 g22 (c * g01) (c * g02) (c * g12) = (M3.sym g00 g11 g22 g01 g02 g12).frob (iso ⟨m00, m01, m02, m10, m11, m12, m20, m21, m22⟩ 0 0 0)
-    ∧ Gen.N3_dec_p01_pp_qa c c3 fn s0 s1 s2 s3 s4 s5 eps h00 h11 h22 (c * h01) (c * h02) (c * h12) g00 g11 g22 (c * g01) (c * g02) (c * g12) = Gen.N3_dec_p01_pp_a c c3 fn s0 s1 s2 s3 s4 s5 eps h00 h11 h22 (c * h01) (c * h02) (c * h12) g00 g11 g22 (c * g01) (c * g02) (c * g12)
-    ∧ Gen.N3_dec_p01_pp_qp c c3 fn s0 s1 s2 s3 s4 s5 eps h00 h11 h22 (c * h01) (c * h02) (c * h12) g00 g11 g22 (c * g01) (c * g02) (c * g12) = Gen.N3_dec_p01_pp_p c c3 fn s0 s1 s2 s3 s4 s5 eps h00 h11 h22 (c * h01) (c * h02) (c * h12) g00 g11 g22 (c * g01) (c * g02) (c * g12) := by
-  subst hl0 hl1 hl2
-  simp only [solM3, M3.mk.injEq] at hM
-  obtain ⟨rfl, rfl, rfl, rfl, rfl, rfl, rfl, rfl, rfl⟩ := hM
-  simp only [solvp]
-  refine ⟨?_, ?_, ?_, ?_, ?_, ?_⟩
-  · c05_dec hc
-  · c05_dec hc
-  · c05_dec hc
-  · c05_dec hc
-  · simp only [gen_simp]
-  · simp only [gen_simp]
-
-theorem N3_dec_dist_ppp (hc : c * c = 2)
-    (s0 s1 s2 s3 s4 s5 eps h00 h11 h22 h01 h02 h12 g00 g11 g22 g01 g02 g12 l0 l1 l2 m00 m01 m02 m10 m11 m12 m20 m21 m22 : K)
-    (hl0 : solvp fn "vp0" [s0, s1, s2, s3, s4, s5] = l0) (hl1 : solvp fn "vp1" [s0, s1, s2, s3, s4, s5] = l1) (hl2 : solvp fn "vp2" [s0, s1, s2, s3, s4, s5] = l2)
-    (hM : solM3 fn [s0, s1, s2, s3, s4, s5] = ⟨m00, m01, m02, m10, m11, m12, m20, m21, m22⟩) :
-    Gen.N3_dec_dist_ppp_a c c3 fn s0 s1 s2 s3 s4 s5 eps h00 h11 h22 (c * h01) (c * h02) (c * h12) g00 g11 g22 (c * g01) (c * g02) (c * g12)
-      = (M3.sym g00 g11 g22 g01 g02 g12).frob (dkAct ⟨m00, m01, m02, m10, m11, m12, m20, m21, m22⟩ (M3.sym 1 1 1 (l0 / (l0 - l1) + l1 / (l1 - l0)) (l0 / (l0 - l2) + l2 / (l2 - l0)) (l1 / (l1 - l2) + l2 / (l2 - l1))) (M3.sym h00 h11 h22 h01 h02 h12))
-    ∧ Gen.N3_dec_dist_ppp_b c c3 fn s0 s1 s2 s3 s4 s5 eps h00 h11 h22 (c * h01) (c * h02) (c * h12) g00 g11 g22 (c * g01) (c * g02) (c * g12)
-      = (M3.sym g00 g11 g22 g01 g02 g12).frob (dkAct ⟨m00, m01, m02, m10, m11, m12, m20, m21, m22⟩ (M3.sym 0 0 0 0 0 0) (M3.sym h00 h11 h22 h01 h02 h12))
-    ∧ Gen.N3_dec_dist_ppp_p c c3 fn s0 s1 s2 s3 s4 s5 eps h00 h11 h22 (c * h01) (c * h02) (c * h12) g00 g11 g22 (c * g01) (c * g02) (c * g12) = (M3.sym g00 g11 g22 g01 g02 g12).frob (iso ⟨m00, m01, m02, m10, m11, m12, m20, m21, m22⟩ l0 l1 l2)
-    ∧ Gen.N3_dec_dist_ppp_n c c3 fn s0 s1 s2 s3 s4 s5 eps h00 h11 h22 (c * h01) (c * h02) (c * h12) g00 g11 g22 (c * g01) (c * g02) (c * g12) = (M3.sym g00 g11 g22 g01 g02 g12).frob (iso ⟨m00, m01, m02, m10, m11, m12, m20, m21, m22⟩ 0 0 0)
-    ∧ Gen.N3_dec_dist_ppp_qa c c3 fn s0 s1 s2 s3 s4 s5 eps h00 h11 h22 (c * h01) (c * h02) (c * h12) g00 g11 g22 (c * g01) (c * g02) (c * g12) = Gen.N3_dec_dist_ppp_a c c3 fn s0 s1 s2 s3 s4 s5 eps h00 h11 h22 (c * h01) (c * h02) (c * h12) g00 g11 g22 (c * g01) (c * g02) (c * g12)
-    ∧ Gen.N3_dec_dist_ppp_qp c c3 fn s0 s1 s2 s3 s4 s5 eps h00 h11 h22 (c * h01) (c * h02) (c * h12) g00 g11 g22 (c * g01) (c * g02) (c * g12) = Gen.N3_dec_dist_ppp_p c c3 fn s0 s1 s2 s3 s4 s5 eps h00 h11 h22 (c * h01) (c * h02) (c * h12) g00 g11 g22 (c * g01) (c * g02) (c * g12) := by
-  subst hl0 hl1 hl2
-  simp only [solM3, M3.mk.injEq] at hM
-  obtain ⟨rfl, rfl, rfl, rfl, rfl, rfl, rfl, rfl, rfl⟩ := hM
-  simp only [solvp]
-  refine ⟨?_, ?_, ?_, ?_, ?_, ?_⟩
-  · c05_dec hc
-  · c05_dec hc
-  · c05_dec hc
-  · c05_dec hc
-  · simp only [gen_simp]
-  · simp only [gen_simp]
-
-theorem N3_dec_dist_nnn (hc : c * c = 2)
-    (s0 s1 s2 s3 s4 s5 eps h00 h11 h22 h01 h02 h12 g00 g11 g22 g01 g02 g12 l0 l1 l2 m00 m01 m02 m10 m11 m12 m20 m21 m22 : K)
-    (hl0 : solvp fn "vp0" [s0, s1, s2, s3, s4, s5] = l0) (hl1 : solvp fn "vp1" [s0, s1, s2, s3, s4, s5] = l1) (hl2 : solvp fn "vp2" [s0, s1, s2, s3, s4, s5] = l2)
-    (hM : solM3 fn [s0, s1, s2, s3, s4, s5] = ⟨m00, m01, m02, m10, m11, m12, m20, m21, m22⟩) :
-    Gen.N3_dec_dist_nnn_a c c3 fn s0 s1 s2 s3 s4 s5 eps h00 h11 h22 (c * h01) (c * h02) (c * h12) g00 g11 g22 (c * g01) (c * g02) (c * g12)
-      = (M3.sym g00 g11 g22 g01 g02 g12).frob (dkAct ⟨m00, m01, m02, m10, m11, m12, m20, m21, m22⟩ (M3.sym 0 0 0 0 0 0) (M3.sym h00 h11 h22 h01 h02 h12))
-    ∧ Gen.N3_dec_dist_nnn_b c c3 fn s0 s1 s2 s3 s4 s5 eps h00 h11 h22 (c * h01) (c * h02) (c * h12) g00 g11 g22 (c * g01) (c * g02) (c * g12)
-      = (M3.sym g00 g11 g22 g01 g02 g12).frob (dkAct ⟨m00, m01, m02, m10, m11, m12, m20, m21, m22⟩ (M3.sym 1 1 1 (l0 / (l0 - l1) + l1 / (l1 - l0)) (l0 / (l0 - l2) + l2 / (l2 - l0)) (l1 / (l1 - l2) + l2 / (l2 - l1))) (M3.sym h00 h11 h22 h01 h02 h12))
-    ∧ Gen.N3_dec_dist_nnn_p c c3 fn s0 s1 s2 s3 s4 s5 eps h00 h11 h22 (c * h01) (c * h02) (c * h12) g00 g11 g22 (c * g01) (c * g02) (c * g12) = (M3.sym g00 g11 g22 g01 g02 g12).frob (iso ⟨m00, m01, m02, m10, m11, m12, m20, m21, m22⟩ 0 0 0)
-    ∧ Gen.N3_dec_dist_nnn_n c c3 fn s0 s1 s2 s3 s4 s5 eps h00 h11 h22 (c * h01) (c * h02) (c * h12) g00 g11 g22 (c * g01) (c * g02) (c * g12) = (M3.sym g00 g11 g22 g01 g02 g12).frob (iso ⟨m00, m01, m02, m10, m11, m12, m20, m21, m22⟩ l0 l1 l2)
-    ∧ Gen.N3_dec_dist_nnn_qa c c3 fn s0 s1 s2 s3 s4 s5 eps h00 h11 h22 (c * h01) (c * h02) (c * h12) g00 g11 g22 (c * g01) (c * g02) (c * g12) = Gen.N3_dec_dist_nnn_a c c3 fn s0 s1 s2 s3 s4 s5 eps h00 h11 h22 (c * h01) (c * h02) (c * h12) g00 g11 g22 (c * g01) (c * g02) (c * g12)
-    ∧ Gen.N3_dec_dist_nnn_qp c c3 fn s0 s1 s2 s3 s4 s5 eps h00 h11 h22 (c * h01) (c * h02) (c * h12) g00 g11 g22 (c * g01) (c * g02) (c * g12) = Gen.N3_dec_dist_nnn_p c c3 fn s0 s1 s2 s3 s4 s5 eps h00 h11 h22 (c * h01) (c * h02) (c * h12) g00 g11 g22 (c * g01) (c * g02) (c * g12) := by
-  subst hl0 hl1 hl2
-  simp only [solM3, M3.mk.injEq] at hM
-  obtain ⟨rfl, rfl, rfl, rfl, rfl, rfl, rfl, rfl, rfl⟩ := hM
-  simp only [solvp]
   refine ⟨?_, ?_, ?_, ?_, ?_, ?_⟩
   · c05_dec hc
   · c05_dec hc
